@@ -1,5 +1,7 @@
 """C03 — no lost wake-up / no deadlock of the blocking conduits: plugin for bin/check."""
+import os
 import re
+import subprocess
 import vcommon as V
 
 ID = "C03"
@@ -15,9 +17,11 @@ REPO_SOURCES = ["muggle/c/sync/channel.c", "muggle/c/sync/ring_buffer.c", "muggl
 HEADER_LINES = 2
 SHRINK = False          # a case is (scenario, schedule); schedules are not line-shrinkable
 CASE_TIMEOUT = 5.0
-RULE = ("scenarios (channel futex/condvar reader x write mutex/single x capacity 4/8 x 1..3 producers; ring buffer "
-        "wait/single/once x lock/single writer x capacity 2..8; array blocking queue capacity 1..4 x 1..2 consumers x "
-        "1..3 producers; double buffer capacity 1..4 x 1..3 writers; synclock 2..4 threads) with message counts that force "
+RULE = ("scenarios (channel futex/condvar/BUSY-LOOP reader x writer lock mutex/single/SPINLOCK/SYNCLOCK x capacity 3/4/8/16/32 x 1..3 producers "
+        "(scripts reach MUGGLE_ERR_FULL under every lock kind; the refused writer yields and retries); ring buffer "
+        "wait/single/once/BUSY-LOOP readers x lock/single writer x capacity 2..8, plus rings that WRAP under model-guided throttled schedules; array blocking queue capacity 1..4 x 1..2 consumers x "
+        "1..3 producers; double buffer capacity 1..4 x 1..3 writers, blocking and NON-BLOCKING mode (capacity 1..3, scripts long "
+        "enough that writes are refused with MUGGLE_ERR_FULL, the refused writer yields and retries while the reader reads); synclock 2..4 threads) with message counts that force "
         "both empty and full blocking, run on the real code under the deterministic scheduler with seeded random schedules "
         "(context-switch density 20/50/80 %, spurious condvar wake-ups 0/20/40 %, spurious weak-CAS failures 0/30 %, futex waits "
         "that return early -- EINTR or spurious -- 0/20/30 % for the channel futex reader and the ring) and "
@@ -25,6 +29,9 @@ RULE = ("scenarios (channel futex/condvar reader x write mutex/single x capacity
         "waker runs (some of them with early futex returns); every trace replayed on the extracted model; non-trivial = some thread really blocked (futex or "
         "condvar); distinct = distinct trace text")
 TRUSTED_BASE = [
+    "the abstract semantics of futex(2) written down in coq/C03/Futex.v (kernel_futex: FUTEX_WAIT = atomic compare-and-block on "
+    "the word's key, FUTEX_WAKE = wake at most val waiters of that key, private and shared key spaces disjoint); the kfutex "
+    "scenarios run the real kernel against it, the thread-asleep observation is the task state in /proc/self/task/<tid>/stat",
     "modelled, not verified: sequentially consistent interleaving of the atomic operations; futex = atomic compare-and-block / "
     "wake (wake_one wakes one waiter, wake_all every waiter), pthread mutex = exclusive ownership, condition variables = Mesa "
     "semantics with spurious wake-ups, as interposed by harness/vsched; fairness of the OS scheduler is not modelled (the "
@@ -32,10 +39,55 @@ TRUSTED_BASE = [
     "message contents are abstracted away in the C03 models (the data path is C01/C02); cursor / count arithmetic, the order of "
     "check, sleep, store and wake, and the value handed to the futex are transcribed from the code and tied by trace acceptance",
 ]
-ASSUMPTIONS = ["one channel reader; one double-buffer reader; ring buffer: single-wait mode has one reader and writers never "
+ASSUMPTIONS = ["x86-64 Linux futex ABI (SYS_futex = 202, FUTEX_WAIT = 0, FUTEX_WAKE = 1, FUTEX_PRIVATE_FLAG = 128): the constants the "
+               "compiler sees are compared with these on every run",
+               "one channel reader; one double-buffer reader; ring buffer: single-wait mode has one reader and writers never "
                "lap a waiting reader (fewer than capacity messages are written while a reader waits); channel capacity >= 3 "
                "(a channel of capacity 1 or 2 refuses every write by construction)"]
 EVIDENCE_NOTES = [
+    "THE FUTEX ITSELF (muggle/c/sync/sync_obj_futex.c; harness/vsched replaces it in every scheduled run): (a) source "
+    "obligation, regenerated on every run into coq/gen/Params_C03.v: the unmodified file is compiled with `syscall` renamed "
+    "to a recording stub and each of muggle_sync_wait / wake_one / wake_all is called with sample arguments; "
+    "futex_source_asks_for_the_scheduler_semantics (one futex call, FUTEX_WAIT resp. FUTEX_WAKE on the PROCESS-PRIVATE key "
+    "for all three, the caller's address / value / timeout, counts 1 / INT_MAX, header constants = Linux ABI) and "
+    "futex_calls_have_the_scheduler_semantics (under the abstract futex(2) semantics of C03/Futex.v each observed call is the "
+    "scheduler's compare-and-block / wake-one / wake-all); (b) kfutex scenarios: the same unmodified file (functions renamed "
+    "kreal_*) runs on the REAL kernel with real threads, no scheduler: wait on a differing value returns EAGAIN at once, a "
+    "sleeper (confirmed asleep by its task state in /proc) is woken by wake_one, wake_all wakes every sleeper, a wake without "
+    "sleepers is harmless; counts compared with the extracted sched_wait / sched_wake_* and checked by an independent oracle; an "
+    "observation that cannot be made in time is reported as HARNESS-ERROR (tally kfutex_HARNESS_ERROR_inconclusive_runs), "
+    "never as a finding",
+    "SPIN-BASED WAITING: channel READ_BUSY under every writer-lock kind is inside model (g) (chan_busy_no_deadlock, "
+    "chan_busy_reader_never_blocks) and in the scenarios (chanb); ring buffer READ_BUSY_LOOP readers are model (h) "
+    "(C03/ModelRB.v: ring_busy_never_blocks, ring_busy_no_deadlock) and scenarios `ring busy`.  Their termination with "
+    "messages delivered is data path (C01 / C02); here: nobody ever blocks, no LIVELOCK under the scheduler's budget",
+    "LONG BACKLOGS / WRAPPING RINGS: channel capacities 16 and 32 with scripts that fill them; model-guided BACKLOG schedules "
+    "(T unread messages when a producer loads read_cursor, T around capacity/2 .. capacity-3; the consumer drains them all and "
+    "sleeps before that producer publishes and wakes) and the monitor clause `a blocked consumer is resumed by the NEXT completed "
+    "write` (a store to a futex word on which somebody sleeps obliges the storer to call wake before its next store / its exit).  "
+    "Rings that WRAP (more messages than slots) run under model-guided THROTTLED schedules (a writer begins a write only while "
+    "written + in flight - slowest reader <= capacity - 2: the documented no-lapping usage played by the schedule); "
+    "rb_no_deadlock / rb_no_lost_wakeup hold for every script length (wrapping included); ring_no_lost_wakeup_fair still "
+    "requires fewer messages than slots in total -- lifting it needs the throttle inside the model and modular accounting "
+    "(cursor = written mod capacity, reader window) throughout C03/ProofsFairRing*.v; NOT done",
+    "EVERY RETURN PATH RELEASES WHAT THE CALL ACQUIRED (MUGGLE_ERR_FULL included): the double buffer is modelled in both "
+    "modes (d_nb = buf->non_blocking; FULL path = unlock, return, client notes 'full', yields, retries): "
+    "dbuf_nonblocking_no_deadlock, dbuf_nonblocking_writer_never_stuck, dbuf_nonblocking_writers_never_sleep, "
+    "dbuf_blocking_never_returns_full, dbuf_calls_release_mutex, dbuf_mutex_owner_is_inside_and_runnable, "
+    "dbuf_full_return_unlocks; all older dbuf theorems now quantify over the mode.  The same statement for the other "
+    "conduits: chan_futex_calls_release_write_mutex, chan_cv_calls_release_mutexes, abq_calls_release_mutex "
+    "(C03/ProofsLocks.v).  refuted_full_return_keeping_mutex (C03/Variants.v): the FULL return that forgets the unlock "
+    "deadlocks (capacity 1, one writer, one reader, an item waiting).  The array blocking queue has no non-blocking / try "
+    "variant in its API.  Monitor: mutex and writer-lock-word ownership is followed through the trace; a client note or a "
+    "thread exit while the thread still owns one is reported (independent of the model)",
+    "CHANNEL, WRITER LOCK = LOCK WORD (model (g), C03/ModelK.v, proofs C03/ProofsChanK*.v): WRITE_SPIN (test-and-set / yield; "
+    "clear) and WRITE_SYNC (weak CAS with spurious failures / futex wait with early returns; store + wake_one) with the futex "
+    "or the condvar reader, any number of writers: chan_wordlock_no_deadlock, chan_wordlock_no_lost_wakeup (three kinds of "
+    "sleepers: reader on write_cursor, reader on read_cv, writers on the synclock word), chan_wordlock_held_only_inside, "
+    "chan_wordlock_calls_release_locks, chan_wordlock_release_on_every_path.  With models (a)/(b) (WRITE_MUTEX / "
+    "WRITE_SINGLE) every writer-lock kind of channel.c is inside the no-deadlock theorems and inside the scenarios, and the "
+    "FULL return is exercised under each of them (tally channel_full_returns_<kind>_lock).  The fair-schedule theorems "
+    "remain stated for WRITE_MUTEX / WRITE_SINGLE only",
     "proved for every schedule and any number of threads (Properties_C03.v): X_no_deadlock and X_no_lost_wakeup for X = "
     "chan_futex, chan_cv, rb, abq, dbuf, synclock; dbuf_notify_one_suffices; two refutation theorems (futex wait on a "
     "re-loaded value; `if` instead of `while`) plus further vm_compute witnesses in C03/Variants.v",
@@ -64,8 +116,8 @@ EVIDENCE_NOTES = [
     "read_mutex and a fair-by-rounds schedule may give the reader its turn only then (theorem "
     "chan_cv_fair_schedule_can_starve_reader: 2000 fair rounds, reader never asleep, never gets the mutex); same with unboundedly "
     "many spurious condvar wake-ups; this is mutex unfairness plus the client's retry loop, not a lost wake-up, and the safety "
-    "theorems chan_cv_no_deadlock / chan_cv_no_lost_wakeup hold; (2) the busy-loop reader modes of channel and ring are not "
-    "modelled in C03 at all (they have no sleep/wake protocol; their termination is pure data path, C01/C02)",
+    "theorems chan_cv_no_deadlock / chan_cv_no_lost_wakeup hold; (2) the busy-loop reader modes of channel and ring (no sleep/wake protocol) have "
+    "no fair-termination theorem (pure data path, C01/C02); their no-deadlock / never-blocks theorems are chan_busy_* and ring_busy_*",
     "abq_balanced_scripts_never_stuck / dbuf_balanced_scripts_never_stuck: with balanced scripts the 'somebody finished early' "
     "end states are unreachable (counting invariant over the remaining script lengths); the analogous statement for the two "
     "channel models and the ring (reader asks for exactly the number of accepted messages => never blocked at the end) is NOT "
@@ -78,9 +130,28 @@ EVIDENCE_NOTES = [
 ]
 
 
+FUTEX_C = "muggle/c/sync/sync_obj_futex.c"
+KREAL = ["-Dmuggle_futex=kreal_muggle_futex", "-Dmuggle_sync_wait=kreal_muggle_sync_wait",
+         "-Dmuggle_sync_wake_one=kreal_muggle_sync_wake_one", "-Dmuggle_sync_wake_all=kreal_muggle_sync_wake_all"]
+
+
+def _plain_flags():
+    return ["-std=gnu11", "-O1", "-g", "-I" + V.REPO, "-I" + V.GEN_INC, "-I" + os.path.join(V.VERIF, "harness")]
+
+
+def _kreal_obj():
+    """The UNMODIFIED repository file sync_obj_futex.c with its four functions renamed kreal_* (so that it can
+    live next to the scheduler's replacements): the object the kfutex scenarios run on the real kernel."""
+    V.gen_config_header()
+    hh = V.headers_hash([os.path.join(V.VERIF, "harness")])
+    return V.compile_obj(os.path.join(V.REPO, FUTEX_C), _plain_flags() + V.SAN_FLAGS + KREAL, hh)
+
+
 def build_impl(ctx):
+    kobj = _kreal_obj()
+    kw = dict(extra_c=["harness/drivers/c03_kfutex.c"], link_flags=[kobj])
     try:
-        return V.build_vsched_driver(ID, C_DRIVER, REPO_SOURCES)
+        return V.build_vsched_driver(ID, C_DRIVER, REPO_SOURCES, **kw)
     except RuntimeError as e:
         # The driver names the queue's mutex / condition variables through the documented struct
         # fields.  If those fields are gone (e.g. two condition variables merged into one) the driver
@@ -92,7 +163,73 @@ def build_impl(ctx):
             raise
         ctx.notes.append("c03_driver.c did not compile against the documented struct fields; rebuilt with "
                          "-DC03_NAMES_BY_OFFSET: " + str(e).strip().split("\n")[-1][:200])
-        return V.build_vsched_driver(ID, C_DRIVER, REPO_SOURCES, extra_flags=["-DC03_NAMES_BY_OFFSET"])
+        return V.build_vsched_driver(ID, C_DRIVER, REPO_SOURCES, extra_flags=["-DC03_NAMES_BY_OFFSET"], **kw)
+
+
+# ---------------------------------------------------------------------------
+# source obligation for sync_obj_futex.c (replaced by the scheduler in every scheduled run)
+
+def _obs_record(fields):
+    return ("{| o_in_val := %(in_val)s; o_in_tmo_null := %(in_tmo_null)s; o_nr := %(nr)s; o_addr_ok := %(addr_ok)s; "
+            "o_op := %(op)s; o_val := %(val)s; o_tmo := %(tmo)s |}" % fields)
+
+
+def gen_params(ctx):
+    """What muggle_sync_wait / wake_one / wake_all hand to syscall(): the unmodified sync_obj_futex.c is compiled
+    with the token `syscall` renamed to a recording stub (that translation unit only), linked with
+    harness/drivers/c03_futex_probe.c and run.  Observation by execution: any rewrite that passes the same
+    arguments to the kernel gives the same record.  A failure to compile / run / parse yields a record that does
+    not satisfy futex_calls_ok (the obligation breaks; never a silent default)."""
+    notes, lines = [], []
+    try:
+        V.gen_config_header()
+        hh = V.headers_hash([os.path.join(V.VERIF, "harness")])
+        o1 = V.compile_obj(os.path.join(V.REPO, FUTEX_C), _plain_flags() + ["-Dsyscall=c03_probe_syscall"], hh)
+        o2 = V.compile_obj(os.path.join(V.VERIF, "harness/drivers/c03_futex_probe.c"), _plain_flags(), hh)
+        outdir = os.path.join(V.BUILD, ID)
+        os.makedirs(outdir, exist_ok=True)
+        exe = os.path.join(outdir, "futex_probe")
+        rc, out, err = V.sh([V.CC, o1, o2, "-o", exe], timeout=120)
+        if rc != 0:
+            raise RuntimeError("link failed: " + err[-300:])
+        rc, out, err = V.sh([exe], timeout=20)
+        if rc != 0:
+            raise RuntimeError("probe exit %d: %s" % (rc, err[-300:]))
+        lines = [l for l in out.split("\n") if l.strip()]
+    except Exception as e:
+        notes.append("(* probe failed: %s *)" % str(e).replace("*)", "* )")[:300])
+    obs = {"wait": [], "wake_one": [], "wake_all": []}
+    hdr = None
+    for ln in lines:
+        w = ln.split()
+        kv = dict(x.split("=", 1) for x in w[1:] if "=" in x)
+        try:
+            if w[0] == "hdr":
+                hdr = {k: int(v) for k, v in kv.items()}
+            elif w[0] in obs:
+                one = int(kv["calls"]) == 1 and kv["uaddr2_null"] == "1" and int(kv["val3"]) == 0
+                obs[w[0]].append(_obs_record({
+                    "in_val": "(%d)" % int(kv["in_val"]), "in_tmo_null": "true" if kv["in_tmo_null"] == "1" else "false",
+                    # more / fewer than one kernel call per library call, or stray trailing arguments: not the futex call
+                    "nr": "(%d)" % (int(kv["nr"]) if one else -1), "addr_ok": "true" if kv["addr_ok"] == "1" else "false",
+                    "op": "(%d)" % int(kv["op"]), "val": "(%d)" % int(kv["val"]),
+                    "tmo": {"passed": "TPassed", "null": "TNull"}.get(kv["tmo"], "TOther")}))
+                if not one:
+                    notes.append("(* %s: calls=%s uaddr2_null=%s val3=%s *)" % (w[0], kv["calls"], kv["uaddr2_null"], kv["val3"]))
+        except Exception as e:
+            notes.append("(* unparsable probe line %r: %s *)" % (ln[:120], e))
+    if hdr is None or set(hdr) != {"SYS_futex", "FUTEX_WAIT", "FUTEX_WAKE", "FUTEX_PRIVATE_FLAG", "INT_MAX"}:
+        notes.append("(* platform constants not reported *)")
+        hdr = {"SYS_futex": -1, "FUTEX_WAIT": -1, "FUTEX_WAKE": -1, "FUTEX_PRIVATE_FLAG": -1, "INT_MAX": -1}
+    txt = ("(* generated by lib/props/c03.py from what muggle/c/sync/sync_obj_futex.c (unmodified, `syscall` renamed to a\n"
+           "   recording stub) was observed to hand to the kernel on this run, and the platform constants as the\n"
+           "   compiler sees them; do not edit *)\n"
+           "From MV Require Import C03.Futex.\nLocal Open Scope Z_scope.\n" + "\n".join(notes) + ("\n" if notes else "") +
+           "Definition code_futex : futex_obs :=\n  {| fo_wait := [%s];\n     fo_wake_one := [%s];\n     fo_wake_all := [%s];\n"
+           "     hdr_SYS_futex := (%d); hdr_FUTEX_WAIT := (%d); hdr_FUTEX_WAKE := (%d); hdr_FUTEX_PRIVATE_FLAG := (%d); hdr_INT_MAX := (%d) |}.\n" % (
+               ";\n        ".join(obs["wait"]), ";\n        ".join(obs["wake_one"]), ";\n        ".join(obs["wake_all"]),
+               hdr["SYS_futex"], hdr["FUTEX_WAIT"], hdr["FUTEX_WAKE"], hdr["FUTEX_PRIVATE_FLAG"], hdr["INT_MAX"]))
+    return txt
 
 
 # ---------------------------------------------------------------------------
@@ -113,15 +250,20 @@ def _split(total, parts, rng):
 
 
 def _scenario(rng, kind):
-    if kind in ("chanf", "chanm"):
-        cap = rng.choice([3, 4, 4, 8, 8])
-        wl = rng.choice(["mutex", "mutex", "single"])
+    if kind in ("chanf", "chanm", "chanb"):
+        cap = rng.choice([3, 4, 4, 8, 8, 16, 32])
+        wl = rng.choice(["mutex", "mutex", "single", "spin", "sync", "sync"])
         nw = 1 if wl == "single" else rng.range(1, 3)
-        # capacity 8: scripts long enough for a backlog of more than capacity/2 messages
-        ks = [rng.range(1, 4) for _ in range(nw)] if cap != 8 else [rng.range(2, 6 if nw == 1 else 3) for _ in range(nw)]
+        # capacity 8 / 16 / 32: scripts long enough for a backlog of more than capacity/2 messages (a writer
+        # that looks at the backlog -- through its possibly stale copy of read_cursor -- sees 4.. / 8.. / 16..)
+        if cap >= 16:
+            tot = rng.range(cap // 2 + 1, cap - 3)
+            ks = [tot] if nw == 1 else _split(tot, nw, rng)
+        else:
+            ks = [rng.range(1, 4) for _ in range(nw)] if cap != 8 else [rng.range(2, 6 if nw == 1 else 3) for _ in range(nw)]
         return "%s %d %s R %d W %s" % (kind, cap, wl, sum(ks), " ".join(map(str, ks)))
     if kind == "ring":
-        md = rng.choice(["wait", "wait", "single", "once"])
+        md = rng.choice(["wait", "wait", "single", "once", "busy"])
         cap = rng.choice([2, 4, 4, 8])
         wl = rng.choice(["lock", "lock", "single"])
         nw = 1 if wl == "single" else rng.range(1, 3)
@@ -131,7 +273,7 @@ def _scenario(rng, kind):
         ks = _split(total, nw, rng)
         if md == "single":
             rs = [rng.range(1, total)]
-        elif md == "wait":
+        elif md in ("wait", "busy"):
             rs = [rng.range(1, total) for _ in range(rng.range(1, 2))]
         else:
             nrd = rng.range(1, min(2, total))
@@ -154,22 +296,73 @@ def _scenario(rng, kind):
         nw = rng.range(1, 3)
         ks = [rng.range(1, 3) for _ in range(nw)]
         return "dbuf %d R %d W %s" % (cap, sum(ks), " ".join(map(str, ks)))
+    if kind == "dbufn":
+        # non-blocking double buffer: small capacity and scripts longer than the capacity, so that
+        # writers do run into a full back buffer (MUGGLE_ERR_FULL), yield and retry after the read
+        cap = rng.range(1, 3)
+        nw = rng.range(1, 3)
+        ks = [rng.range(1, 4) for _ in range(nw)]
+        if sum(ks) <= cap:
+            ks[0] += cap
+        return "dbufn %d R %d W %s" % (cap, sum(ks), " ".join(map(str, ks)))
     return "slock %d %d" % (rng.range(2, 4), rng.range(1, 2))
 
 
-KINDS = ["chanf", "abq", "ring", "dbuf", "chanm", "slock"]
+def _kfutex_script(rng):
+    """real-kernel script: sleepers on the current / another value, wake_one / wake_all with and without
+    sleepers, value changes; at most 8 sleepers"""
+    toks, word, ns = [], 0, 0
+    for _ in range(rng.range(2, 9)):
+        c = rng.below(10)
+        if c < 5 and ns < 8:
+            toks.append("s%d" % (word if rng.chance(3, 4) else word + 1 + rng.below(3)))
+            ns += 1
+        elif c < 7:
+            toks.append("w1")
+        elif c < 9:
+            toks.append("wa")
+        else:
+            word = rng.below(5)
+            toks.append("v%d" % word)
+    return "kfutex " + " ".join(toks)
+
+
+KFUTEX_CORPUS = ["s0 w1", "s5", "s0 s0 s0 w1 wa", "w1 wa s0 v3 s0 s3 wa", "s0 s0 v1 w1 w1 w1", "s0 s0 s0 s0 wa w1",
+                 "v7 s7 s7 w1 v2 s7 s2 wa wa"]
+
+KINDS = ["chanf", "abq", "ring", "dbuf", "chanm", "slock", "dbufn", "chanb"]
 
 # fixed scenarios used for the model-guided schedules (sleeper parked between check and sleep)
 GUIDED = [
     "chanf 4 single R 2 W 2", "chanf 4 mutex R 3 W 2 1", "chanf 4 mutex R 6 W 2 2 2", "chanf 8 mutex R 4 W 2 2",
     "chanf 8 single R 5 W 5", "chanf 8 single R 6 W 6", "chanf 8 mutex R 6 W 3 3", "chanf 8 mutex R 5 W 5",
     "chanf 8 single R 5 W 5", "chanf 8 mutex R 6 W 6", "chanf 8 single R 4 W 4",
+    # capacity 16 / 32: the backlog reaches 8+ / 16+ while a producer sits between its load of read_cursor
+    # and its wake call; the consumer then drains everything and goes to sleep inside that window
+    "chanf 16 single R 14 W 14", "chanf 16 mutex R 14 W 7 7", "chanf 16 sync R 13 W 7 6", "chanf 16 spin R 13 W 13",
+    "chanf 32 single R 28 W 28", "chanf 32 mutex R 30 W 15 15", "chanf 32 sync R 26 W 26", "chanm 16 mutex R 10 W 5 5",
     "chanm 4 single R 2 W 2", "chanm 4 mutex R 3 W 2 1", "chanm 4 mutex R 5 W 2 2 1",
+    "chanf 4 spin R 4 W 2 2", "chanf 4 sync R 4 W 2 2", "chanf 4 sync R 5 W 2 2 1", "chanf 8 sync R 6 W 3 3",
+    "chanm 4 spin R 4 W 3 1", "chanm 4 sync R 4 W 2 2", "chanm 4 sync R 6 W 2 2 2",
+    # busy-loop (spin-based) reader under every writer-lock kind
+    "chanb 4 single R 3 W 3", "chanb 4 mutex R 4 W 2 2", "chanb 4 spin R 4 W 2 2", "chanb 4 sync R 5 W 2 2 1", "chanb 8 sync R 7 W 4 3",
     "ring wait 4 single R 3 W 3", "ring wait 4 lock R 3 2 W 2 1", "ring single 4 lock R 3 W 1 2", "ring once 4 lock R 2 1 W 2 1",
-    "ring wait 8 lock R 5 5 W 2 2 1",
+    "ring wait 8 lock R 5 5 W 2 2 1", "ring busy 4 lock R 3 2 W 2 1", "ring busy 4 single R 3 W 3",
     "abq 1 R 2 W 1 1", "abq 1 R 2 2 W 2 1 1", "abq 2 R 3 W 1 1 1", "abq 2 R 2 2 W 4", "abq 3 R 4 W 2 2",
     "dbuf 1 R 2 W 1 1", "dbuf 1 R 3 W 1 1 1", "dbuf 2 R 4 W 2 2", "dbuf 2 R 5 W 2 2 1",
+    "dbufn 1 R 2 W 2", "dbufn 1 R 3 W 2 1", "dbufn 2 R 5 W 3 2", "dbufn 2 R 6 W 2 2 2",
     "slock 2 2", "slock 3 1", "slock 4 1",
+]
+
+
+# WRAPPING rings (more messages than slots): only under model-guided THROTTLED schedules (explore window 200),
+# in which a writer begins a write only while nobody can be lapped -- the documented usage; a free-running
+# schedule would lap the readers, which is outside the property
+GUIDED_WRAP = [
+    "ring wait 4 lock R 9 9 W 5 4", "ring wait 2 lock R 5 W 3 2", "ring wait 8 single R 20 W 20", "ring wait 4 single R 11 7 W 11",
+    "ring single 2 single R 6 W 6", "ring single 4 lock R 10 W 4 3 3",
+    "ring once 4 lock R 5 4 W 3 3 3", "ring once 2 single R 3 3 W 6",
+    "ring busy 4 lock R 10 W 5 5", "ring busy 2 single R 5 5 W 5",
 ]
 
 
@@ -181,6 +374,9 @@ def corpus_cases(ctx):
         c = V.Case.load(f)
         c.meta["scen"] = c.lines[0]
         cases.append(c)
+    # the real kernel futex through the unmodified sync_obj_futex.c (no scheduler)
+    for i, sc in enumerate(KFUTEX_CORPUS):
+        cases.append(V.Case("kfutex-fixed-%d" % i, ["kfutex " + sc], {"scen": "kfutex " + sc}))
     # model-guided schedules: ask the extracted model for schedules that park a sleeper between
     # its check and its sleep while the waker runs; replay them on the implementation
     runs = 6 if ctx.tier == "quick" else 40
@@ -188,6 +384,17 @@ def corpus_cases(ctx):
     for i, scen in enumerate(GUIDED):
         for win in (3, 8):
             ex.append(V.Case("explore-%d-%d" % (i, win), [scen, "explore %d %d %d" % (ctx.seed * 1000 + i, runs, win)]))
+        w = scen.split()
+        if w[0] == "chanf" and int(w[1]) >= 8:
+            # backlog schedules (window 100 + T): T unread messages when a producer loads read_cursor, the consumer
+            # drains them all and sleeps before that producer publishes and wakes; T around capacity/2, 3/4 capacity
+            cap = int(w[1])
+            total = sum(int(x) for x in w[w.index("W") + 1:])
+            for T in sorted(set(t for t in (cap // 2, cap // 2 + 1, 3 * cap // 4, cap - 3) if 0 < t < total)):
+                ex.append(V.Case("explore-%d-%d" % (i, 100 + T),
+                                 [scen, "explore %d %d %d" % (ctx.seed * 1000 + i, 2 if ctx.tier == "quick" else 10, 100 + T)]))
+    for i, scen in enumerate(GUIDED_WRAP):
+        ex.append(V.Case("explore-w%d-200" % i, [scen, "explore %d %d 200" % (ctx.seed * 1000 + 500 + i, 8 if ctx.tier == "quick" else 60)]))
     res = ctx.run_model(ex) if getattr(ctx, "model", None) else {}
     for c in ex:
         r = res.get(c.name)
@@ -201,16 +408,24 @@ def corpus_cases(ctx):
 
 def generate(rng, tier):
     cases = []
+    rk = rng.fork("kfutex")
+    for i in range(40 if tier == "quick" else 400):
+        sc = _kfutex_script(rk)
+        cases.append(V.Case("kfutex-%d" % i, [sc], {"scen": sc}))
     per_kind = 450 if tier == "quick" else 6000
     for kind in KINDS:
         r = rng.fork(kind)
-        for i in range(per_kind):
+        # the two channel families are spread over four writer-lock kinds
+        for i in range(per_kind * 3 // 2 if kind in ("chanf", "chanm") else per_kind * 2 // 3 if kind == "chanb" else per_kind):
             scen = _scenario(r, kind)
             stick = r.choice([20, 50, 80])
-            spur = r.choice([0, 30]) if kind == "slock" else 0
-            cvspur = r.choice([0, 20, 40]) if kind in ("abq", "dbuf", "chanm") else 0
-            # futex waits that would block may return early (EINTR / spurious): channel futex reader, ring
-            fsp, fwk = (r.choice([(0, 0), (0, 0), (30, 0), (0, 30), (20, 20)]) if kind in ("chanf", "ring") else (0, 0))
+            synclk = kind in ("chanf", "chanm", "chanb") and scen.split()[2] == "sync"
+            # weak compare-exchange may fail spuriously: synclock (alone, or as the channel's writer lock)
+            spur = r.choice([0, 30]) if kind == "slock" or synclk else 0
+            cvspur = r.choice([0, 20, 40]) if kind in ("abq", "dbuf", "dbufn", "chanm") else 0
+            # futex waits that would block may return early (EINTR / spurious): channel futex reader, ring,
+            # writers waiting on the channel's synclock word
+            fsp, fwk = (r.choice([(0, 0), (0, 0), (30, 0), (0, 30), (20, 20)]) if kind in ("chanf", "ring") or synclk else (0, 0))
             cases.append(_mk("%s-%d" % (kind, i), scen, "rand %d %d %d %d %d %d" % (
                 r.below(1 << 30), stick, spur, cvspur, fsp, fwk)))
     return cases
@@ -221,10 +436,11 @@ def search(rng, diverging, tier):
     for i in range(4000):
         kind = rng.choice(KINDS)
         scen = _scenario(rng, kind)
-        fsp, fwk = (rng.choice([(0, 0), (30, 0), (0, 30), (20, 20)]) if kind in ("chanf", "ring") else (0, 0))
+        synclk = kind in ("chanf", "chanm", "chanb") and scen.split()[2] == "sync"
+        fsp, fwk = (rng.choice([(0, 0), (30, 0), (0, 30), (20, 20)]) if kind in ("chanf", "ring") or synclk else (0, 0))
         out.append(_mk("search-%s-%d" % (kind, i), scen, "rand %d %d %d %d %d %d" % (
-            rng.below(1 << 30), rng.choice([10, 30, 50, 80]), rng.choice([0, 30]) if kind == "slock" else 0,
-            rng.choice([0, 20, 50]) if kind in ("abq", "dbuf", "chanm") else 0, fsp, fwk)))
+            rng.below(1 << 30), rng.choice([10, 30, 50, 80]), rng.choice([0, 30]) if kind == "slock" or synclk else 0,
+            rng.choice([0, 20, 50]) if kind in ("abq", "dbuf", "dbufn", "chanm") else 0, fsp, fwk)))
     return out
 
 
@@ -251,9 +467,53 @@ def _parse_scen(words):
     return kind, len(r) + len(w), r, w
 
 
+def _mon_kfutex(toks, lines):
+    """Oracle of futex-as-used-by-the-conduits on the real kernel run: a wait on a value that differs returns at
+    once (-1 / EAGAIN); a wait on the current value sleeps; wake_one wakes exactly one sleeper if there is one,
+    wake_all every sleeper; a wake without sleepers wakes nobody and leaves no token behind; nobody is left
+    asleep behind a wake_all.  Independent of the Coq model (own bookkeeping)."""
+    k = [ln for ln in lines if ln.startswith("K ")]
+    if any(ln.startswith("K inconclusive") for ln in k):
+        return None          # harness error (reported through the tally / a note), never a finding
+    word, asleep, i = 0, 0, 0
+    for tk in toks:
+        if i >= len(k):
+            return "real-kernel futex run stopped before script step %r" % tk
+        ln = k[i]
+        i += 1
+        if tk[0] == "s":
+            v = int(tk[1:])
+            if v == word:
+                if not ln.endswith(" asleep"):
+                    return ("muggle_sync_wait(&word, %d) with *word == %d did not sleep: %s (real kernel, unmodified "
+                            "sync_obj_futex.c)" % (v, word, ln))
+                asleep += 1
+            elif "returned rc=-1 errno=11" not in ln:
+                return ("muggle_sync_wait(&word, %d) with *word == %d must return at once with EAGAIN (compare-and-block), "
+                        "got: %s" % (v, word, ln))
+        elif tk in ("w1", "wa"):
+            m = re.match(r"K w[1a] woke=(-?\d+) resumed=(-?\d+)$", ln)
+            want = min(1, asleep) if tk == "w1" else asleep
+            if not m or int(m.group(1)) != want or int(m.group(2)) != want:
+                return ("muggle_sync_%s with %d thread(s) asleep in muggle_sync_wait on the same word must wake %d: %s "
+                        "(real kernel, unmodified sync_obj_futex.c)" % ("wake_one" if tk == "w1" else "wake_all", asleep, want, ln))
+            asleep -= want
+        elif tk[0] == "v":
+            word = int(tk[1:])
+    if i >= len(k) or k[i] != "K end asleep=%d" % asleep:
+        return "real-kernel futex run ends with %r, expected %d sleeper(s) left" % (k[i] if i < len(k) else None, asleep)
+    return None
+
+
 def monitor(case, lines):
     words = case.lines[0].split()
+    if words[0] == "kfutex":
+        return _mon_kfutex(words[1:], lines)
     kind, nthreads, rs, ws = _parse_scen(words)
+    # lock discipline first (its message names the cause of the deadlock that usually follows)
+    msg = _mon_locks(lines)
+    if msg:
+        return msg
     for ln in lines:
         if ln.startswith("DEADLOCK") or ln.startswith("LIVELOCK"):
             return "scheduler reported %s (every unfinished thread asleep / no progress while messages remain)" % ln
@@ -270,15 +530,71 @@ def monitor(case, lines):
     f = [ln for ln in lines if ln.startswith("F ")]
     if not f or not f[-1].startswith("F status=0"):
         return "bad summary %r" % (f[-1] if f else None)
-    if kind in ("chanf", "chanm"):
+    if kind in ("chanf", "chanm", "chanb"):
         return _mon_chan(kind, words, rs, ws, lines, f[-1])
     if kind == "ring":
         return _mon_ring(words, rs, ws, lines)
     if kind == "abq":
         return _mon_abq(int(words[1]), rs, ws, lines, f[-1])
-    if kind == "dbuf":
-        return _mon_dbuf(int(words[1]), rs, ws, lines, f[-1])
+    if kind in ("dbuf", "dbufn"):
+        return _mon_dbuf(int(words[1]), rs, ws, lines, f[-1], kind == "dbufn")
     return _mon_slock(int(words[1]), int(words[2]), lines, f[-1])
+
+
+def _mon_locks(lines):
+    """Every return path of a call releases what the call acquired.  Mutex ownership is followed through
+    the trace (mlock / successful mtry acquire; munlock releases; a condition wait releases the mutex the
+    thread holds and its cvwoke re-acquires it).  A driver note `R t ...` is printed by CLIENT code after
+    its library call has returned, and `X t` is the end of the thread: at both, thread t must not own any
+    mutex.  Also: no mutex is acquired while owned, none is unlocked by a thread that does not own it."""
+    owner = {}           # mutex cell / lock word "wl" -> tid
+    waitm = {}           # tid -> mutexes released by its condition wait
+    for ln in lines:
+        w = ln.split()
+        if not w:
+            continue
+        if w[0] == "E":
+            t, op, cell = w[1], w[2], w[3]
+            if cell == "wl" and op in ("tas", "casw", "cass", "clear", "store"):
+                # the channel's writer lock word (spinlock: tas a = previous value / clear; synclock:
+                # compare-exchange c = 1 success / store 0)
+                if (op == "tas" and w[5] == "0") or (op in ("casw", "cass") and w[7] == "1"):
+                    if cell in owner:
+                        return "thread %s acquired the writer lock word while thread %s holds it" % (t, owner[cell])
+                    owner[cell] = t
+                elif op == "clear" or (op == "store" and w[5] == "0"):
+                    if owner.get(cell) != t:
+                        return "thread %s releases the writer lock word which it does not hold (holder: %s)" % (t, owner.get(cell, "nobody"))
+                    del owner[cell]
+                continue
+            if op == "mlock" or (op == "mtry" and w[5] == "1"):
+                if cell in owner:
+                    return "thread %s acquired mutex %s while thread %s owns it" % (t, cell, owner[cell])
+                owner[cell] = t
+            elif op == "munlock":
+                if owner.get(cell) != t:
+                    return "thread %s unlocks mutex %s which it does not own (owner: %s)" % (t, cell, owner.get(cell, "nobody"))
+                del owner[cell]
+            elif op == "cvwait":
+                held = [m for m, u in owner.items() if u == t]
+                if not held:
+                    return "thread %s waits on condition variable %s without holding a mutex" % (t, cell)
+                waitm[t] = held
+                for m in held:
+                    del owner[m]
+            elif op == "cvwoke" and t in waitm:
+                for m in waitm.pop(t):
+                    if m in owner:
+                        return "thread %s returned from its condition wait while thread %s owns mutex %s" % (t, owner[m], m)
+                    owner[m] = t
+        elif w[0] in ("R", "X"):
+            held = sorted(m for m, u in owner.items() if u == w[1])
+            if held:
+                return ("thread %s %s still holding %s: a return path of the call did not release it "
+                        "(every later lock of it blocks for ever)" % (
+                            w[1], "finished" if w[0] == "X" else "is back in client code (note %r)" % " ".join(w[2:]),
+                            ",".join("the writer lock word" if m == "wl" else "mutex " + m for m in held)))
+    return None
 
 
 def _mon_resumed(lines):
@@ -290,12 +606,28 @@ def _mon_resumed(lines):
     asleep = {}
     woken = {}
     stores = {}          # cell -> number of completed stores so far (trace order)
+    owes = {}            # tid -> (cell, sleeper): it stored to a futex word on which `sleeper` was asleep
     for i, ln in enumerate(lines):
         w = ln.split()
         if not w:
             continue
+        if w[0] == "X" and w[1] in owes:
+            return ("thread %s finished without a wake-up call after its write to %s, on which thread %s was asleep "
+                    "(a blocked consumer is resumed by the NEXT completed write)" % (w[1], owes[w[1]][0], owes[w[1]][1]))
         if w[0] == "E":
             t, op, cell = w[1], w[2], w[3]
+            if op == "store":
+                # resumed by the NEXT completed write: a plain store to a futex word on which somebody is asleep
+                # obliges the storer to call wake on that word before it stores to it again or finishes
+                if t in owes and owes[t][0] == cell:
+                    return ("thread %s wrote to %s again without having called wake after its previous write, during which "
+                            "thread %s was asleep on it (a blocked consumer is resumed by the NEXT completed write)" % (
+                                t, cell, owes[t][1]))
+                sl = sorted(u for u in asleep if asleep[u][0] == "futex" and asleep[u][1] == cell)
+                if sl:
+                    owes[t] = (cell, sl[0])
+            elif op == "fwake" and t in owes and owes[t][0] == cell:
+                del owes[t]
             if op in ("store", "clear", "xchg", "cass", "casw", "fadd", "fsub"):
                 stores[cell] = stores.get(cell, 0) + 1
             if t in asleep and not (op == "cvwoke" and asleep[t][0] == "cv"):
@@ -377,7 +709,7 @@ def _mon_chan(kind, words, rs, ws, lines, fline):
         w = ln.split()
         if w[0] != "E":
             continue
-        if kind == "chanf":
+        if kind in ("chanf", "chanb"):
             if w[2] == "store" and w[3] == "wcur":
                 published += 1
             elif w[2] == "store" and w[3] == "rcur":
@@ -449,14 +781,36 @@ def _mon_abq(cap, rs, ws, lines, fline):
     return None
 
 
-def _mon_dbuf(cap, rs, ws, lines, fline):
-    # the reader is thread 0; each completed write / read ends with that thread's munlock
+def _mon_dbuf(cap, rs, ws, lines, fline, nb=False):
+    # the reader is thread 0; each completed write / read ends with that thread's munlock.  A writer's
+    # munlock is the end of an accepted write or (non-blocking mode) of a refused one; which one is told
+    # by the client's next note ("wrote" / "full"), printed after the call returned.
+    refused = set()
+    last = {}
+    for i, ln in enumerate(lines):
+        w = ln.split()
+        if w[0] == "E" and w[2] == "munlock" and w[1] != "0":
+            last[w[1]] = i
+        elif w[0] == "R" and w[1] in last:
+            if w[2] == "full":
+                refused.add(last[w[1]])
+            del last[w[1]]
     back = 0
     swapped = []
-    for ln in lines:
+    nfull = 0
+    for i, ln in enumerate(lines):
         w = ln.split()
+        if w[0] == "R" and w[2] == "full":
+            nfull += 1
+            if not nb:
+                return "write to a BLOCKING double buffer was refused (thread %s)" % w[1]
+        if w[0] == "E" and w[2] == "cvwait" and w[1] != "0" and nb:
+            return "writer %s of a NON-BLOCKING double buffer went to sleep on %s" % (w[1], w[3])
         if w[0] == "E" and w[2] == "munlock":
-            if w[1] != "0":
+            if i in refused:
+                if back != cap:
+                    return "write refused with FULL by thread %s although the back buffer held %d of %d items" % (w[1], back, cap)
+            elif w[1] != "0":
                 back += 1
                 if back > cap:
                     return "write into a full back buffer (count %d > capacity %d) by thread %s" % (back, cap, w[1])
@@ -498,6 +852,8 @@ def _mon_slock(n, it, lines, fline):
 
 
 def nontrivial_key(case, lines):
+    if case.lines[0].startswith("kfutex"):
+        return hash("\n".join(lines)) if any(ln.endswith(" asleep") for ln in lines) else None
     for ln in lines:
         if ln.startswith("E ") and (" cvwait " in ln or (" fwait " in ln and ln.endswith(" 1"))):
             return hash("\n".join(lines))
@@ -506,8 +862,26 @@ def nontrivial_key(case, lines):
 
 def tally(dist, case, lines):
     scen = case.lines[0].split()
-    k = scen[0] + ("-" + scen[1] if scen[0] == "ring" else "")
+    if scen[0] == "kfutex":
+        dist["kfutex_real_kernel_runs"] = dist.get("kfutex_real_kernel_runs", 0) + 1
+        for ln in lines:
+            if ln.startswith("K inconclusive"):
+                dist["kfutex_HARNESS_ERROR_inconclusive_runs"] = dist.get("kfutex_HARNESS_ERROR_inconclusive_runs", 0) + 1
+                V.log("HARNESS-ERROR property=C03 real-kernel futex run inconclusive (not a finding): %s :: %s" % (case.lines[0], ln))
+            elif ln.endswith(" asleep"):
+                dist["kfutex_sleepers_seen_asleep_in_kernel"] = dist.get("kfutex_sleepers_seen_asleep_in_kernel", 0) + 1
+            elif ln.startswith("K w") and not ln.startswith("K w1 woke=0") and not ln.startswith("K wa woke=0"):
+                dist["kfutex_wakes_with_sleeper"] = dist.get("kfutex_wakes_with_sleeper", 0) + 1
+        return
+    k = scen[0] + ("-" + scen[1] if scen[0] == "ring" else "") + ("-" + scen[2] if (scen[0] in ("chanf", "chanm") and scen[2] in ("spin", "sync")) or scen[0] == "chanb" else "")
     dist[k] = dist.get(k, 0) + 1
+    if scen[0] == "ring":
+        i, j = scen.index("R"), scen.index("W")
+        cap = 1
+        while cap < int(scen[2]):
+            cap *= 2
+        if sum(int(x) for x in scen[j + 1:]) > cap - 1:
+            dist["ring_wrapping_throttled_schedules"] = dist.get("ring_wrapping_throttled_schedules", 0) + 1
     if case.lines[1].startswith("sched list"):
         dist["model_guided_schedules"] = dist.get("model_guided_schedules", 0) + 1
         if case.lines[1].split()[2] != "-":
@@ -515,6 +889,8 @@ def tally(dist, case, lines):
     for ln in lines:
         if ln.startswith("E "):
             dist["events"] = dist.get("events", 0) + 1
+            if " fwait wl " in ln and ln.endswith(" 1"):
+                dist["writers_asleep_on_lock_word"] = dist.get("writers_asleep_on_lock_word", 0) + 1
             if " fwait " in ln:
                 key = {"1": "futex_sleeps", "2": "futex_wait_interrupted", "3": "futex_wait_spurious_return"}.get(
                     ln.split()[-1], "futex_wait_value_changed")
@@ -526,20 +902,25 @@ def tally(dist, case, lines):
         elif ln.startswith("W "):
             dist["spurious_condvar_wakeups"] = dist.get("spurious_condvar_wakeups", 0) + 1
         elif ln.startswith("R ") and ln.endswith(" full"):
-            dist["channel_full_returns"] = dist.get("channel_full_returns", 0) + 1
+            key = ("dbuf_nonblocking_full_returns" if scen[0] == "dbufn" else
+                   "channel_full_returns_%s_lock" % scen[2] if scen[0] in ("chanf", "chanm", "chanb") else "channel_full_returns")
+            dist[key] = dist.get(key, 0) + 1
 
 
 MANIFEST = {
     "level_text": ("Coq theorems over executable interleaving models of the sleep/wake protocols of channel (futex and "
-                   "condvar reader), ring buffer (wait / single-wait / read-once), array blocking queue, double buffer and "
+                   "condvar reader; writer lock mutex / none / spinlock / synclock), ring buffer (wait / single-wait / "
+                   "read-once), array blocking queue, double buffer (blocking and non-blocking mode) and "
                    "synclock: for every schedule and any number of threads, in every reachable state some thread can run "
                    "or the only unfinished threads are consumers asleep on a genuinely empty conduit with every producer "
                    "finished (resp. producers on a full one with every consumer finished); per-sleeper invariants (futex: "
                    "word = expected or a waker is between its store and its wake; condvar: predicate false or a wake token "
-                   "is in flight); refutations of the classic broken variants.  Tie: the real code runs under a "
+                   "is in flight); every return path (MUGGLE_ERR_FULL included) leaves the conduit's mutexes / lock word released: "
+                   "an owner is always a thread inside a call that can run; refutations of the classic broken variants.  Tie: the real code runs under a "
                    "deterministic scheduler (hooked atomics, emulated futex/mutex/condvar with spurious wake-ups), random "
                    "and model-guided schedules, every trace replayed on the extracted model; an independent monitor checks "
-                   "no DEADLOCK/LIVELOCK, every script finishes, every sleeper is resumed by a later wake-up, counts."),
+                   "no DEADLOCK/LIVELOCK, every script finishes, every sleeper is resumed by a later wake-up, no thread is "
+                   "back in client code owning a mutex / the writer lock word, refusals only on a full conduit, counts."),
     "design_ref": "DESIGN.md sections 4.2, 4.3, 6/C03",
     "level_note": ("Safety form of no-lost-wake-up (fairness of the OS scheduler is not modelled).  Trusted: Coq kernel, "
                    "extraction, vsched scheduler and its futex/mutex/condvar semantics."),
